@@ -275,9 +275,10 @@ end Sim
 def condApplies (kv : NMap Bytes) (k : Nat) (nx : Bool) : Bool :=
   if nx then (NMap.get kv k).isNone else (NMap.get kv k).isSome
 
-/-- `false` = the code as it is: a refused SET is recorded (and gossiped) all the same;
-    `true` = only what the executor applied is recorded (fix prepared on `fixes-glue-s4`) -/
-def currentGate : Bool := false
+/-- `true` = the current tree (since the `fix:` commit recorded in known_findings.json): only what the
+    executor applied is recorded; `false` = the code before it: a refused SET was recorded (and
+    gossiped) all the same -/
+def currentGate : Bool := true
 
 inductive XEv where
   | plain (e : SEv)
